@@ -390,7 +390,7 @@ fn documented_panics(ctx: &mut Ctx, r: &mut Rng) {
 
 fn exercise_hist<'a, T>(h: &'a Hist, mk: &dyn Fn(&'a str) -> Option<T>) -> Option<Fail>
 where
-    T: PurlShape + Clone + PartialEq + Debug,
+    T: PurlShape + Clone + PartialEq + Debug + crate::exec::Reparse,
     T::Error: Debug,
 {
     let run = run_hist(h, mk)?;
